@@ -14,6 +14,7 @@ EXPLANATION = (
     "update_history exactly once per detection and track_length += 1 exactly once; (R03.7) only ids whose status is "
     "Ok(Wasted) are fetched by the collection and by wasted()."
     ' (R03.12) a batch keeps one entry per scene id and the per-scene epoch map only grows (no removal / eviction); R03.2 also judges the overflow-safe spelling `current.saturating_sub(last_updated) > max_idle` (accepted) against `saturating_sub(last_updated + 1) >= max_idle` (differs for max_idle = 0).')
+EXPLANATION += ' Round 6: auto_waste reaches the collection on every path (R03.5); the candidate pipeline loses no detection (R03.13, rule of C01); only next_epoch / skip_epochs_for_scene write the epoch store and baked reads it for its own scene only (R03.12).'
 NOT_DECIDED = ["whole-history conservation as an input-output statement", "user code mutating the stores directly",
                "concrete epochs/lengths for concrete histories"]
 ASSUMPTIONS = ["no code outside the analysed crate mutates the tracker's stores", "panics out of scope",
@@ -41,10 +42,16 @@ def run(ctx):
     ctx.floor('R03.5', T.rule_conservation(ctx, 'R03.5'), 6)
     ctx.rule('R03.6', 'update_history once per detection; track_length += 1')
     ctx.floor('R03.6', T.rule_length_step(ctx, 'R03.6'), 4)
+    # every submitted detection becomes a candidate and a record (clause R01.1 of C01): nothing filters detections out
+    # between the request and the candidate tracks
+    from props import C01
+    C01.r1(ctx, 'R03.13')
     ctx.rule('R03.12', 'the epoch advances once per predict call and scene: a batch keeps one entry per scene id (entries '
                        'selected by id), and an epoch once counted is never forgotten (no removal from the epoch map)')
     n = T.rule_batch_request(ctx, 'R03.12')
     n += T.rule_epochs_never_forgotten(ctx, 'R03.12')
+    n += T.rule_epoch_writers(ctx, 'R03.12')
+    n += T.rule_status_reads_own_scene(ctx, 'R03.12')
     ctx.floor('R03.12', n, 3)
     ctx.rule('R03.7', 'only Ok(Wasted) ids are fetched')
     ctx.floor('R03.7', T.rule_only_expired_migrate(ctx, 'R03.7'), 2)
